@@ -87,7 +87,7 @@ def build(parents, labs, rot=0, extra=None):
     return prog
 
 
-ILLEGAL = ("past", "negdelay", "tinyneg", "nanabs", "nanrel", "nanev",
+ILLEGAL = ("past", "negdelay", "tinyneg", "nanabs", "nanrel", "nanev", "pastev",
            "badtype")
 
 
@@ -236,6 +236,15 @@ def make_model_class():
                 elif what == "nanev":
                     sim.schedule_event(SimEvent(self.nan(), self, "h",
                                                 tag="ILL"))
+                elif what == "pastev":
+                    # a ready-made event a hair before the clock (one part in
+                    # 10^10, or one tick on an int clock)
+                    now = sim.simulator_time
+                    t = now - 1 if isinstance(now, int) else \
+                        now - abs(now) * 1e-10
+                    if not t < now:
+                        return          # clock at zero: nothing "just before"
+                    sim.schedule_event(SimEvent(t, self, "h", tag="ILL"))
                 elif what == "badtype":
                     sim.schedule_event_abs("soon", self, "h", tag="ILL")
                 out = "accepted"
